@@ -978,6 +978,10 @@ func (x *exec) refinementCheck(st *State, u *Unit, rets []Value) {
 		if fs == nil || len(fs.Ensures) == 0 {
 			continue
 		}
+		if fs.Opts["norefine"] != "" {
+			e.note("model contract %s is not proved for %s (opt norefine): its clauses stay assumptions", shortKey(key), u.Name)
+			continue
+		}
 		env := x.newEnv(st, fs)
 		env.old = u.entry
 		env.reps = reps
